@@ -86,7 +86,7 @@ impl ToTokens for FromMetaImpl<'_> {
                             #field_post_transform
                             .map(#ty_ident)
                             #post_transform
-                            .map_err(|e| e.with_span(&__item))
+                            .map_err(|__e| __e.with_span(&__item))
                     }
 
                     #from_none
@@ -177,7 +177,7 @@ impl ToTokens for FromMetaImpl<'_> {
                                     (match __name.as_str() {
                                         #(#data_variants)*
                                         __other => ::darling::export::Err(::darling::Error::#unknown_variant_err)
-                                    }).map_err(|e: ::darling::Error| e.with_span(__nested))
+                                    }).map_err(|__e: ::darling::Error| __e.with_span(__nested))
                                 } else {
                                     ::darling::export::Err(::darling::Error::unsupported_format("literal").with_span(&__outer[0]))
                                 }
@@ -189,8 +189,8 @@ impl ToTokens for FromMetaImpl<'_> {
                         }
                     }
 
-                    fn from_string(lit: &str) -> ::darling::Result<Self> {
-                        match lit {
+                    fn from_string(__lit: &str) -> ::darling::Result<Self> {
+                        match __lit {
                             #(#unit_arms)*
                             __other => ::darling::export::Err(::darling::Error::unknown_value(__other))
                         }
